@@ -51,7 +51,16 @@ def _psi(rng, maxangle=np.pi):
 
 def _rotation(rng):
     """rotation matrices built in hostile ways; returns (A, class)"""
-    c = int(rng.integers(8))
+    c = int(rng.integers(9))
+    if c == 8:  # signed permutation matrix with determinant +1, given as an INTEGER array (quarter / half / third turns about
+        #         the coordinate axes and diagonals - exact rotation matrices a user would write down by hand)
+        while True:
+            perm = rng.permutation(3)
+            A = np.zeros((3, 3), dtype=np.int64)
+            for i in range(3):
+                A[i, perm[i]] = 1 if rng.random() < 0.5 else -1
+            if round(np.linalg.det(A)) == 1:
+                return A, "signed_permutation_int"
     if c == 0:  # exact half turn about a coordinate axis
         d = -np.ones(3); d[int(rng.integers(3))] = 1.0
         return np.diag(d), "half_axis"
